@@ -111,8 +111,9 @@ pub struct Chain {
     pub env: Env,
     pub who: Who,
     pub w: WorldState,
-    /// fault schedule: the k-th IBC transfer submission of the *next* transaction fails iff fail_submit[k]
-    pub fail_submit: Vec<bool>,
+    /// fault schedule for the k-th IBC transfer submission of the *next* transaction: 0 = accepted, 1 = the submission
+    /// fails, 2 = accepted, but the reply handed to the contract carries no response data
+    pub fail_submit: Vec<u8>,
     /// outgoing amounts for which "balance >= amount" was decided (label, balance, amount, forked)
     pub debits: Vec<(String, T, T)>,
     pub trace: Vec<String>,
@@ -382,9 +383,9 @@ impl Chain {
                 }
                 let k = *fault_idx;
                 *fault_idx += 1;
-                let fail = self.fail_submit.get(k).copied().unwrap_or(false);
+                let fault = self.fail_submit.get(k).copied().unwrap_or(0);
                 let mut failure: Option<String> = None;
-                if fail {
+                if fault == 1 {
                     failure = Some("transfer: submission failed (channel closed / client expired)".into());
                 } else if !self.debit_checked(&contract, denom, amount, "transfer") {
                     failure = Some(format!("transfer: insufficient balance of {denom}"));
@@ -400,7 +401,7 @@ impl Chain {
                                 // MsgTransferResponse { sequence = 1 }
                                 let mut data = vec![];
                                 pb::put_uint(&mut data, 1, sq);
-                                let r = Reply { id, result: SubMsgResult::Ok(SubMsgResponse { events: vec![], data: Some(Binary::from(data)) }) };
+                                let r = Reply { id, result: SubMsgResult::Ok(SubMsgResponse { events: vec![], data: if fault == 2 { None } else { Some(Binary::from(data)) } }) };
                                 return self.call_reply(r);
                             }
                         }
